@@ -393,6 +393,27 @@ def argument_case(ctx, r, cid):
     net = InteractingNetworks(adjacency=A.copy(), silence_level=3)
     net.set_link_attribute("w", W.copy())
     rp = RecurrencePlot(x.copy(), threshold=0.5, silence_level=3)
+    from pyunicorn.core import GeoNetwork, Grid, ResNetwork, Data
+    from pyunicorn.climate import ClimateNetwork, ClimateData
+    latf, lonf = lat.astype(float).copy(), lon.astype(float).copy()
+    pos = np.array([0.3, 0.4, np.sqrt(1 - 0.25)])
+    sp2 = np.round(r.normal(size=(2, n)) * 8) / 8
+    Dm = np.abs(np.subtract.outer(x[:12], x[:12]))
+    Sm = np.round(r.uniform(0, 1, (n, n)) * 64) / 64
+    Sm = np.maximum(Sm, Sm.T)
+    np.fill_diagonal(Sm, 1.0)
+    Rm = np.where(A != 0, np.round(r.uniform(1, 4, (n, n)) * 4) / 4, 0.0)
+    Rm = np.maximum(Rm, Rm.T)
+    if not (Rm.sum(axis=1) > 0).all():
+        Rm = Rm + (np.ones((n, n)) - np.eye(n)) * 2.0 * (Rm == 0)
+    nw = r.uniform(0.5, 2.0, n)
+    el = np.argwhere(np.triu(A))
+    if not len(el):
+        el = np.array([[0, 1]])
+    Sq = (r.integers(-8, 9, size=(3, 3)) / 8.0).astype(np.float32)
+    Lq = r.integers(0, 4, size=(3, 3)).astype(np.int32)
+    obs = np.round(r.normal(size=(24, n)) * 8) / 8
+    g24 = GeoGrid(np.arange(24.), lat, lon, silence_level=3)
     calls = [
         ("GeoGrid.region_indices", [poly], lambda: g.region_indices(poly)),
         ("Network.set_link_attribute", [W],
@@ -484,6 +505,52 @@ def argument_case(ctx, r, cid):
         ("EventSeries.make_event_matrix", [data],
          lambda: EventSeries.make_event_matrix(data, "quantile", 0.8,
                                                "above")),
+        # further static helpers / entry points that take the caller's arrays
+        ("GeoNetwork.latlon2cartesian", [latf, lonf],
+         lambda: GeoNetwork.latlon2cartesian(latf, lonf)),
+        ("GeoNetwork.cartesian2latlon", [pos],
+         lambda: GeoNetwork.cartesian2latlon(pos)),
+        ("Grid.coord_sequence_from_rect_grid", [lat, lon],
+         lambda: Grid.coord_sequence_from_rect_grid([lat, lon])),
+        ("GeoGrid.coord_sequence_from_rect_grid", [lat, lon],
+         lambda: GeoGrid.coord_sequence_from_rect_grid(lat, lon)),
+        ("GeoGrid.node_number", [lat, lon],
+         lambda: g.node_number((float(lat[0]), float(lon[0])))),
+        ("Grid.__init__", [sp2],
+         lambda: Grid(np.arange(3.), sp2, silence_level=3)
+         .euclidean_distance()),
+        ("RecurrencePlot.legendre_coordinates", [x],
+         lambda: RecurrencePlot.legendre_coordinates(x, dim=3, t_forth=2)),
+        ("RecurrencePlot.threshold_from_recurrence_rate_fast", [Dm],
+         lambda: RecurrencePlot.threshold_from_recurrence_rate_fast(
+             Dm, 0.3, rr_precision=0.5)),
+        ("RecurrencePlot.threshold_from_recurrence_rate[own-matrix]", [Dm],
+         lambda: RecurrencePlot.threshold_from_recurrence_rate(Dm, 0.3)),
+        ("EventSeries.event_coincidence_analysis", [ev],
+         lambda: EventSeries.event_coincidence_analysis(ev[:, 0], ev[:, 1],
+                                                        2)),
+        ("ClimateNetwork.__init__", [Sm],
+         lambda: ClimateNetwork(g, Sm, threshold=0.4, non_local=True,
+                                silence_level=3).correlation_distance()),
+        ("ResNetwork.__init__", [Rm],
+         lambda: ResNetwork(Rm, silence_level=3)
+         .effective_resistance(0, 1)),
+        ("ResNetwork.update_resistances", [Rm],
+         lambda: ResNetwork(Rm.copy(), silence_level=3)
+         .update_resistances(Rm)),
+        ("Network.node_weights", [nw],
+         lambda: setattr(Network(adjacency=A.copy(), silence_level=3),
+                         "node_weights", nw)),
+        ("Network.set_edge_list", [el],
+         lambda: Network(edge_list=el, n_nodes=n, silence_level=3)),
+        ("CouplingAnalysis.symmetrize_by_absmax", [Sq, Lq],
+         lambda: CouplingAnalysis(data.copy(), silence_level=3)
+         .symmetrize_by_absmax(Sq, Lq)),
+        ("Data.__init__", [obs],
+         lambda: Data(obs, g24, silence_level=3).observable()),
+        ("ClimateData.__init__", [obs],
+         lambda: ClimateData(obs, g24, time_cycle=12,
+                             silence_level=3).anomaly()),
     ]
     # recurrence_plot's rp.supremum_distance_matrix() is a cached array
     cached_D = rp.supremum_distance_matrix()
